@@ -2,6 +2,7 @@ package main
 
 import (
 	"go/token"
+	"go/types"
 
 	"golang.org/x/tools/go/ssa"
 )
@@ -84,7 +85,19 @@ func (w *depWalker) walk(v ssa.Value) {
 		}
 		w.walk(x.X)
 	case *ssa.Alloc:
-		// value of a cell pointer: its contents matter only through loads; nothing to do
+		// value of a cell pointer: its contents matter only through loads. Exception: the
+		// backing array of a variadic call / slice literal, whose elements are what flows on.
+		if _, isArr := derefType(x.Type()).Underlying().(*types.Array); isArr && x.Referrers() != nil {
+			for _, r := range *x.Referrers() {
+				if ia, ok := r.(*ssa.IndexAddr); ok && ia.Referrers() != nil {
+					for _, rr := range *ia.Referrers() {
+						if st, ok := rr.(*ssa.Store); ok && st.Addr == ia {
+							w.walk(st.Val)
+						}
+					}
+				}
+			}
+		}
 	case *ssa.FreeVar:
 		w.walkFreeVar(x)
 	case *ssa.Parameter, *ssa.Const, *ssa.Global, *ssa.Function, *ssa.Builtin:
